@@ -24,7 +24,7 @@ ASSUMPTIONS = [
     "unit-converted equal pairs use integer data and conversions whose factor is an exact float (to cm/g/s)",
 ]
 
-KEYS = list("abcde")
+KEYS = list("abcde") + ["name"]         # ("name" is also a keyword of the Array / Vector constructors)
 osyris = None
 
 
@@ -553,10 +553,16 @@ def ds_history(case, r):
                     if raised is None and model.get(k) is v and v.name != k:
                         r.bad(["ds", "name"], f"{where}: update did not rename group to {k!r}")
         elif o == "clear":
+            held = {k: (g, list(g.keys())) for k, g in model.items() if isinstance(g, osyris.Datagroup)}
             try:
                 ds.clear()
             except Exception as e:
                 r.bad(["ds", "clear-raises", type(e).__name__], f"{where}: {e!r}")
+            # (a dictionary's clear() drops its references; the values themselves, which the caller may still hold, stay)
+            for k, (g, members) in held.items():
+                if list(g.keys()) != members:
+                    r.bad(["ds", "clear-empties-the-groups"], f"{where}: group {k!r} held by the caller had members {members}, "
+                          f"has {list(g.keys())} after Dataset.clear()")
             model.clear()
             meta.clear()
         elif o == "meta":
@@ -578,6 +584,15 @@ def ds_history(case, r):
                 else:
                     cp["zz"] = osyris.Datagroup()
                 cp.meta["copy_only"] = 1
+                if op["then_del"] in ("a", "name"):
+                    # ... and the copy is cleared: the groups it shares with the original keep their members
+                    held = {k: list(g.keys()) for k, g in model.items() if isinstance(g, osyris.Datagroup)}
+                    cp.clear()
+                    r.label("copy_then_cleared")
+                    for k, members in held.items():
+                        if list(model[k].keys()) != members:
+                            r.bad(["ds", "clear-empties-the-groups", "of-a-copy"], f"{where}: after copy().clear() group {k!r} of the "
+                                  f"original has members {list(model[k].keys())}, had {members}")
             except Exception as e:
                 r.bad(["ds", "copy-raises", type(e).__name__], f"{where}: {e!r}")
         _observe_ds(ds, model, meta, r, f"after {where}")
